@@ -111,7 +111,7 @@ def side_text(side):
 
 def rand_network(rng, ns=None, nr=None, nenv=None, max_order=3, chem_p=0.15, diffusing=True, kchoices=None):
     ns = ns or rng.randint(1, 4)
-    nr = rng.randint(0, 3) if nr is None else nr
+    nr = rng.choice([0, 1, 1, 2, 2, 3]) if nr is None else nr
     nenv = nenv or rng.choice([1, 1, 2, 3])
     labels = LABELS[:ns]
     envs = ENVS[:nenv]
@@ -296,3 +296,153 @@ def left_null_space(sto, ns, nr):
         iv = [a // g for a in iv] if g else iv
         basis.append(iv)
     return basis
+
+
+# ---------------------------------------------------------------------------------------------
+# running a script on the rebuilt engine (inside the sandboxed child) — shared by C07 / C02
+# ---------------------------------------------------------------------------------------------
+def child_run(case, lib):
+    """case: {"net","space","option","seed","dt","tmax","max_iter","state"(optional species-major override),
+    "mode"(init_state_processing, optional)} -> samples, times, draws after initialisation, marshalled arrays"""
+    import numpy as np
+    import strengths as st
+    from strengths.librdengine import LibRDEngine
+    import engine_io
+    system = build_system(case["net"], case["space"])
+    if case.get("state") is not None:
+        system.state = list(case["state"])
+    if case.get("chem") is not None:
+        system.chemostats = list(case["chem"])
+    option = case["option"]
+    script = st.RDScript(system, t_sample=[0], time_step=case["dt"], t_max=case["tmax"], sampling_policy="on_iteration",
+                         rng_seed=case["seed"], init_state_processing=case.get("mode", "auto"))
+    eng = LibRDEngine(lib, option=option, requires_molecules=(option != "euler"))
+    common.draws_clear(lib)
+    eng.setup(script)
+    n_init = len(common.draws_get(lib))
+    it = 0
+    while it < case["max_iter"] and eng.iterate():
+        it += 1
+    draws = common.draws_get(lib)[n_init:]
+    traj = eng.get_output()
+    complete = bool(eng.is_complete())
+    eng.finalize()
+    arr = engine_io.system_arrays(script, option != "euler")
+    arr.pop("us", None)
+    ns, nc = traj.nspecies(), traj.ncells()
+    data = np.asarray(traj.data.value, dtype=float).reshape((traj.nsamples(), ns * nc))
+    return {"t": [float(v) for v in traj.t.value], "x": [[float(v) for v in row] for row in data],
+            "draws": [[k, a, b, r] for (k, a, b, r) in draws], "arr": arr, "complete": complete, "iterations": it}
+
+
+# ---------------------------------------------------------------------------------------------
+# independent rate law / event set (the oracle's own: CME propensities, Bernstein diffusion constants)
+# ---------------------------------------------------------------------------------------------
+def grid_neighbors(w, h, d, px, py, pz):
+    """neighbour of every cell in the 6 directions (+x,-x,+y,-y,+z,-z); None = wall"""
+    out = []
+    for i in range(w * h * d):
+        x, y, z = i % w, (i // w) % h, i // (w * h)
+        row = []
+        for (dx, dy, dz) in ((1, 0, 0), (-1, 0, 0), (0, 1, 0), (0, -1, 0), (0, 0, 1), (0, 0, -1)):
+            xn, yn, zn = x + dx, y + dy, z + dz
+            if px:
+                xn %= w
+            if py:
+                yn %= h
+            if pz:
+                zn %= d
+            if 0 <= xn < w and 0 <= yn < h and 0 <= zn < d:
+                row.append(xn + w * yn + w * h * zn)
+            else:
+                row.append(None)
+        out.append(row)
+    return out
+
+
+class Rates:
+    """the oracle's own tabulation of channels from the marshalled arrays (exact fractions)"""
+
+    def __init__(self, arr, edge=None):
+        from engine_io import exact_cuberoot
+        F = Fraction
+        self.ns, self.nr, self.nenv = arr["ns"], arr["nr"], arr["nenv"]
+        sp = arr["space"]
+        self.kind = sp["kind"]
+        if self.kind == "grid":
+            self.n = sp["w"] * sp["h"] * sp["d"]
+            V = F(arr["vol"])
+            self.vol = [V] * self.n
+            hh = F(edge) if edge is not None else exact_cuberoot(arr["vol"])
+            self.edge = [hh] * self.n
+            nb = grid_neighbors(sp["w"], sp["h"], sp["d"], sp["px"], sp["py"], sp["pz"])
+            # half-edges: (i, j, geometric factor S/(V_i d)) ; grid: S = h^2, d = h, V = h^3 -> 1/h^2
+            self.half = [[(j, 1 / (hh * hh)) for j in row if j is not None] for row in nb]
+        else:
+            self.n = sp["n"]
+            self.vol = [F(v) for v in arr["vol"]]
+            self.edge = [F(e) for e in edge] if edge is not None else [exact_cuberoot(v) for v in arr["vol"]]
+            self.half = [[] for _ in range(self.n)]
+            for (i, j, sfc, dst) in sp["edges"]:
+                self.half[i].append((j, F(sfc) / (self.vol[i] * F(dst))))
+                self.half[j].append((i, F(sfc) / (self.vol[j] * F(dst))))
+        self.env = arr["env"]
+        self.chem = arr["chem"]           # species-major
+        self.k = [F(v) for v in arr["k"]]
+        self.sub = arr["sub"]
+        self.sto = arr["sto"]
+        self.D = [F(v) for v in arr["D"]]
+        self.order = [sum(self.sub[s * self.nr + r] for s in range(self.ns)) for r in range(self.nr)]
+
+    def dbar(self, s, i, j):
+        Di, Dj = self.D[s * self.nenv + self.env[i]], self.D[s * self.nenv + self.env[j]]
+        if Di == 0 or Dj == 0:
+            return Fraction(0)
+        hi, hj = self.edge[i], self.edge[j]
+        return (hi + hj) / (hi / Di + hj / Dj)
+
+    def channels(self, x):
+        """[(propensity, effect dict {(s,i): delta} masked by chemostats, description)] for the state x
+        (species-major list of Fractions); only channels with positive propensity"""
+        n, ns, nr = self.n, self.ns, self.nr
+        out = []
+        for i in range(n):
+            for r in range(nr):
+                kk = self.k[self.env[i] * nr + r]
+                if kk == 0:
+                    continue
+                comb = Fraction(1)
+                ok = True
+                for s in range(ns):
+                    nu = self.sub[s * nr + r]
+                    xs = x[s * n + i]
+                    if xs < nu:
+                        ok = False
+                        break
+                    for q in range(nu):
+                        comb *= (xs - q)
+                if not ok:
+                    continue
+                a = kk * self.vol[i] ** (1 - self.order[r]) * comb
+                if a <= 0:
+                    continue
+                eff = {}
+                for s in range(ns):
+                    dv = self.sto[s * nr + r]
+                    if dv != 0 and not self.chem[s * n + i]:
+                        eff[(s, i)] = eff.get((s, i), 0) + dv
+                out.append((a, eff, ("reaction", i, r)))
+            for s in range(ns):
+                xs = x[s * n + i]
+                for slot, (j, geo) in enumerate(self.half[i]):
+                    a = xs * self.dbar(s, i, j) * geo
+                    if a <= 0:
+                        continue
+                    eff = {}
+                    if not self.chem[s * n + i]:
+                        eff[(s, i)] = eff.get((s, i), 0) - 1
+                    if not self.chem[s * n + j]:
+                        eff[(s, j)] = eff.get((s, j), 0) + 1
+                    eff = {k2: v for k2, v in eff.items() if v != 0}
+                    out.append((a, eff, ("diffusion", i, s, j)))
+        return out
